@@ -375,10 +375,16 @@ func blocksChanged(before, after map[int]string) string {
 	return ""
 }
 
-// serveProbe: after the hostile message a VALID sync request must be answered and a VALID eager
-// sync with one new honest event must be accepted (which also shows that coreLock is free).
+// serveProbe ("still serves"), run after EVERY hostile node-level case whatever its kind, state and
+// outcome class (the node is put back into Babbling first): the core lock must be obtainable
+// (addTransaction returns within the watchdog), a VALID sync request must be answered, a VALID eager
+// sync with one new honest event must be accepted and inserted, and the node must still be able to
+// create a self-event and process its signature pool (monologue).
 func (w *world) serveProbe(t *hnode) string {
 	h := w.nodes[1]
+	if g := guardedGo(func() (interface{}, error) { t.n.VerifAddTransaction(w.newTx()); return nil, nil }); g.outcome != "ok" {
+		return "core-lock:" + g.outcome + siteSuffix(g)
+	}
 	r := rpcCall(t.n, &net.SyncRequest{FromID: h.id, Known: h.n.VerifCore().KnownEvents(), SyncLimit: 1000})
 	if r.outcome != "ok" {
 		return "sync-request:" + r.outcome + siteSuffix(r)
@@ -400,6 +406,22 @@ func (w *world) serveProbe(t *hnode) string {
 	}
 	if after := t.n.VerifCore().KnownEvents()[h.id]; after <= before {
 		return "eager-sync:not-inserted"
+	}
+	seqBefore := t.n.VerifCore().Seq()
+	if g := guardedGo(func() (interface{}, error) { return nil, t.n.VerifMonologue() }); g.outcome != "ok" {
+		return "self-event:" + g.outcome + siteSuffix(g)
+	}
+	if t.n.VerifCore().Busy() && t.n.VerifCore().Seq() < seqBefore {
+		return "self-event:head-went-backwards"
+	}
+	return ""
+}
+
+// lockProbe: the part of the probe that applies in every state, also right after a rejected
+// fast-forward response (before the retry): the core lock is free.
+func (w *world) lockProbe(t *hnode) string {
+	if g := guardedGo(func() (interface{}, error) { t.n.VerifAddTransaction(w.newTx()); return nil, nil }); g.outcome != "ok" {
+		return "core-lock:" + g.outcome + siteSuffix(g)
 	}
 	return ""
 }
